@@ -913,7 +913,11 @@ def adversary_scenarios(chk, n, tag):
         for q, ch in enumerate(chunks):
             enc = rng.choice(["l", "l", "u"])
             cmds += ["rpc 3 2 id=spoof%d size=5 idh=%s@1:%s" % (q, ",".join(x.encode().hex() for x in ch), enc),
-                     "rpc 2 3 id=spoofr%d size=5 idh=%s@1:%s" % (q, ",".join(x.encode().hex() for x in ch), enc)]
+                     "rpc 2 3 id=spoofr%d size=5 idh=%s@1:%s" % (q, ",".join(x.encode().hex() for x in ch), enc),
+                     # the same through the typed client layer, answered with an error status and with success: the origin the
+                     # caller sees on the rpc::Status / Response is the authenticated callee
+                     "rpc 3 2 id=spooft%d size=5 typed=1 status=%d idh=%s@1:%s" % (q, rng.choice([400, 404, 500, 520]), ",".join(x.encode().hex() for x in ch), enc),
+                     "rpc 2 3 id=spoofu%d size=5 typed=1 idh=%s@1:%s" % (q, ",".join(x.encode().hex() for x in ch), enc)]
         scen.append("simnet " + " ; ".join(cmds))
         metas.append((label, mode))
     outs, parsed = run_scenarios(chk, scen, tag)
@@ -963,6 +967,14 @@ def adversary_scenarios(chk, n, tag):
             chk.disagree(sc, "[%s] adversary-as-client admitted=%s, as-server accepted=%s" % (label, dialed_ok, conn_ok),
                          "Tls.v: as-client %s, as-server %s" % (want_dial, want_conn), "simnet/adversary")
         for c, x in zip(cmds, res):
+            if c.startswith(("rpc 3 2 id=spooft", "rpc 2 3 id=spoofu")):
+                a, b = c.split()[1], c.split()[2]
+                chk.count("typed-calls-answered-with-messages-naming-another-identity")
+                if not x.startswith("typed") or fields(x)["from"] != b:
+                    chk.monitor_fail("[%s] a typed call of node %s to node %s, answered with headers naming node 1's identity: the caller sees the %s as coming from %s (%s)"
+                                     % (label, a, b, "error status" if x.startswith("typederr") else "response", fields(x).get("from", "?") if x.startswith("typed") else "?", x[:60]), dict(case=sc, impl=o[-1200:]))
+                    break
+                continue
             if c.startswith("rpc 3 2 id=spoof") or c.startswith("rpc 2 3 id=spoofr"):
                 a, b = c.split()[1], c.split()[2]
                 chk.count("messages-naming-another-identity")
